@@ -40,7 +40,7 @@ UNADVERTISED = ["zz_other_class_attr", "_private", "__dunder__", "extras_of_othe
 def GATES(tier):
     return [("calls_judged", 3000), ("methods_checked", 300), ("mode:single", 500), ("mode:positional", 100), ("mode:kwonly_positional_rejected", 100), ("mode:default", 200),
             ("mode:pair", 300), ("mode:unadvertised", 300), ("nested_keyword_sets_compared", 100), ("kind:__init__", 20), ("kind:element", 50), ("kind:scalar", 100), ("kind:toplevel", 30),
-            ("init_false_attrs_seen", 3), ("overflow_classes", 2), ("mode:unadvertised_if_false", 100), ("behavioural_probes", 20)]
+            ("init_false_attrs_seen", 3), ("overflow_classes", 2), ("mode:unadvertised_if_false", 100), ("behavioural_probes", 20), ("directed_cases", 20), ("overflow_sequences_steps", 10)]
 
 
 class Spy:
@@ -87,8 +87,100 @@ def expected_nested_keywords(decl, cname, mname, kind, attr):
     return set(leaf.get(t.elem, set()))
 
 
+DIRECTED_SRC = """
+from typing import Dict, List
+from spec_classes import spec_class, Attr
+
+@spec_class
+class Inner:
+    a: int = 1
+    b: str = "b"
+    hidden: int = Attr(default=0, init=False)
+
+class PInner(Inner):  # an ordinary (undecorated) subclass of a spec class, used as a nested type
+    pass
+
+@spec_class(init_overflow_attr="options")
+class Flex:
+    size: int = 0
+
+@spec_class
+class Outer:
+    child: PInner
+    kids: List[PInner]
+    byname: Dict[str, PInner]
+    flex: Flex
+    flexes: Dict[str, Flex]
+"""
+
+
+def directed_cases(ctx):
+    """
+    Nested types outside the generated grammar's Leaf/KLeaf: a plain subclass of a spec class (its init-enabled attributes
+    are the nested keywords) and a nested class with an overflow attribute (the helper advertises **options: every
+    keyword, in every call of a sequence of calls with different names, reaches the nested constructor).
+    """
+    ns = cg.exec_module(DIRECTED_SRC, prefix="verif_c17d").__dict__
+    Outer, PInner, Flex = ns["Outer"], ns["PInner"], ns["Flex"]
+    Outer()  # first use (the module is bootstrapped lazily)
+    expect = {"a", "b"}
+    for mname in ("with_child", "update_child", "transform_child", "with_kid", "update_kid", "transform_kid", "with_byname_item", "update_byname_item", "transform_byname_item"):
+        sig = inspect.signature(getattr(Outer, mname))
+        virtual = {p.name for p in sig.parameters.values() if p.kind is p.KEYWORD_ONLY and not p.name.startswith("_")}
+        ctx.count("nested_keyword_sets_compared")
+        ctx.count("directed_cases")
+        if virtual != expect:
+            ctx.violation("nested_keywords_match_nested_class", f"Outer.{mname}{sig}: nested-attribute keywords {sorted(virtual)}; the nested class PInner (plain subclass of spec class Inner) has init-enabled attributes {sorted(expect)}",
+                          features={"kind": "directed", "nested": "plain_subclass", "verb": mname.split("_")[0]}, case=["directed", mname])
+    probes = [
+        ("with_child(a=5)", lambda: Outer().with_child(a=5).child, lambda v: type(v) is PInner and (v.a, v.b) == (5, "b")),
+        ("update_child(b='z')", lambda: Outer(child=PInner(a=3)).update_child(b="z").child, lambda v: type(v) is PInner and (v.a, v.b) == (3, "z")),
+        ("with_kid(a=7)", lambda: Outer().with_kid(a=7).kids, lambda v: len(v) == 1 and type(v[0]) is PInner and v[0].a == 7),
+        ("with_byname_item('k', b='q')", lambda: Outer().with_byname_item("k", b="q").byname, lambda v: type(v["k"]) is PInner and v["k"].b == "q"),
+        ("transform_child(a=inc)", lambda: Outer(child=PInner(a=3)).transform_child(a=lambda x: x + 1).child, lambda v: v.a == 4),
+    ]
+    for label, fn, ok in probes:
+        ctx.count("behavioural_probes")
+        ctx.count("calls_judged")
+        ctx.count("directed_cases")
+        try:
+            got = fn()
+            good = ok(got)
+        except Exception as e:
+            got, good = f"{type(e).__name__}: {e}", False
+        if not good:
+            ctx.violation("advertised_parameter_reaches_behaviour", f"Outer.{label} (nested type: plain subclass of a spec class) gave {safe_repr(got, 100)}",
+                          features={"kind": "directed", "nested": "plain_subclass", "verb": label.split("_")[0]}, case=["directed", label])
+    # overflow keywords: a sequence of calls with *different* keyword names on the same helper
+    seqs = [
+        [{"colour": "red"}, {"size": 3}, {"size": 4, "shade": 1}, {"colour": "blue", "depth": 2}, {}],
+        [{"size": 1}, {"weight": 9}, {"weight": 8, "size": 2}],
+    ]
+    for si, seq in enumerate(seqs):
+        for helper in ("with_flex", "with_flexes_item"):
+            # a fresh class per sequence would hide state kept per generated function: the same class is used throughout
+            for j, kw in enumerate(seq):
+                ctx.count("behavioural_probes")
+                ctx.count("calls_judged")
+                ctx.count("directed_cases")
+                ctx.count("overflow_sequences_steps")
+                want = Flex(**kw)
+                try:
+                    got = Outer().with_flex(**kw).flex if helper == "with_flex" else Outer().with_flexes_item("k", **kw).flexes["k"]
+                    good = got == want and set(got.__dict__) == set(want.__dict__)
+                except Exception as e:
+                    got, good = f"{type(e).__name__}: {e}", False
+                if not good:
+                    ctx.violation("advertised_parameter_reaches_behaviour", f"Outer.{helper}(**{kw}) as call #{j} of a sequence with different keyword names gave {safe_repr(got, 100)}; the nested constructor gives {safe_repr(want, 100)}",
+                                  features={"kind": "directed", "nested": "overflow", "helper": helper, "call_index": min(j, 1)}, case=["directed", helper, si, j])
+                    break
+    ctx.sig("directed", "plain_subclass_nested", "overflow_sequences")
+
+
 def run(ctx, params):
     rng = ctx.rng
+    if params.get("directed"):
+        return directed_cases(ctx)
     for ci in range(params["modules"]):
         decl = cg.gen_module(rng, {"frozen": False, "init_false": True, "props": False})
         if ci % 4 == 1:
@@ -317,5 +409,5 @@ def _blank(world, cname):
 
 def plan(tier, seed):
     if tier == "quick":
-        return [{"shard": i, "modules": 8, "pairs_per_method": 6} for i in range(16)]
-    return [{"shard": i, "modules": 120, "pairs_per_method": 40} for i in range(32)]
+        return [{"directed": True}] + [{"shard": i, "modules": 8, "pairs_per_method": 6} for i in range(15)]
+    return [{"directed": True}] + [{"shard": i, "modules": 120, "pairs_per_method": 40} for i in range(31)]
